@@ -457,7 +457,8 @@ pub fn mutate_pat(p: &Pat, rng: &mut crate::rng::Rng) -> Pat {
         }
         Pat::Tuple(ps) => {
             let mut ps2 = ps.clone();
-            if rng.chance(1, 2) && ps2.len() > 1 {
+            // a one-element tuple is not a tuple: never shrink below two
+            if rng.chance(1, 2) && ps2.len() > 2 {
                 ps2.pop();
             } else {
                 ps2.push(extra(rng));
